@@ -46,6 +46,7 @@ func storeValue(id string) []byte {
 		}
 		storeVals["empty"] = []byte{}
 		storeVals["d1"] = mk([3]string{"sha256", "o1", "h1"})
+		storeVals["d1b"] = mk([3]string{"sha256", "o2", "h2"}) // same length as d1, other content
 		storeVals["d3"] = mk([3]string{"sha256", "o1", "h1"}, [3]string{"sha256", "o2", "h1"}, [3]string{"sha256", "o1", "h2"})
 		storeVals["dc"] = mk([3]string{"x509", "o1", "c1"})
 		storeVals["d1c"] = append(append([]byte{}, storeVals["d1"]...), storeVals["dc"]...) // d1 is a proper prefix
